@@ -211,6 +211,14 @@ func Note(s string) {}
 // every order (1, a fork per step) or reversed (2).  Native: no effect.
 func SetMapOrder(mode int) {}
 
+// DeferGoroutines: under the engine, `go` statements executed from now on do
+// not run their body at once; RunPendingGoroutine runs the oldest waiting one.
+// Native: no effect (the harness gates its own stubs instead).
+func DeferGoroutines(on bool) {}
+
+// RunPendingGoroutine: engine only (native: false).
+func RunPendingGoroutine() bool { return false }
+
 // RunGoroutine runs fn to completion in its own goroutine and reports how it
 // ended (native replays).
 func RunGoroutine(fn func()) (panicked interface{}, done bool) {
